@@ -9,8 +9,9 @@ NOTE = ('Trusted: Verus/Z3, the weaver (rewrites listed per run in the evidence)
         '(each external_body/assume_specification is scanned and listed in the evidence), 64-bit usize, streams < 2^60 bytes. ')
 
 SCOPE = (' Functions under contract for this property are listed per run in the evidence (coverage.functions_under_contract); '
-         'parser-level coverage: DIMACS CNF parser and all its tokens, ASCII and binary AIGER section readers, tokens and symbol tables; '
-         'WCNF/GCNF/solver-log/BTOR2 parsers and the whole-file `parse` drivers of AIGER are not under contract yet and are not covered by this claim.')
+         'parser-level coverage: DIMACS CNF, WCNF and GCNF parsers, the SAT solver log parser and all their tokens; ASCII and binary AIGER header, section readers, '
+         'symbol table, comment, tokens and entry writers; BTOR2 tokens. Not under contract and not covered by this claim: the BTOR2 line parser (parser.rs) and '
+         'writer (btor2.rs), the whole-file drivers of AIGER (parse, write_aig, write_ordered_aig), the DIMACS writers.')
 
 CLAIMED = {
     'C01': dict(cat='proof', ref='6/C01', text='Every reader, scanner, token and parser function under contract has a postcondition that mentions only the stream (ghost prophecy `full`, `fails`) and the cursor/line bookkeeping, never the read schedule; the source model admits every partition into reads, Interrupted results and fault positions, so the verified results are functions of the bytes alone. Fast paths (8-byte kernel) are proved equal to the byte-wise paths (Verus + Kani for all 2^64 words). mark is part of the view and proved stable across refills.' + SCOPE,
@@ -21,7 +22,7 @@ CLAIMED = {
                 tech=TECH, note=NOTE),
     'C06': dict(cat='proof', ref='6/C06', text='Exact numbers: scanners (C13) carried through cnf uint/int/braced_uint, aiger uint (no leading zeros), binary_uint (7-bit groups) and delta_code (delta <= reference). Limits as postconditions: var_count <= MAX_DIMACS, header limits installed unless ignore_header, literals within +-limit and equal to the scanned value through the lossless from_dimacs cast, clause_count/clause_limit gate further clauses and the clean end, group limit; AIGER header M <= (MAX_CODE-1)/2 and I+L+A <= M, literals <= 2M+1 with defined literals even and non-zero, section readers yield exactly the declared count, symbol indices below the count of their own section.' + SCOPE,
                 tech=TECH, note=NOTE),
-    'C07': dict(cat='proof', ref='6/C07', text='The layout freedom is proved as token-level facts: end-of-word = space/tab/CR/LF/end; tokens eat trailing blanks; newline = LF or CRLF plus blanks; comment = through the next LF plus blanks; non_terminating_linebreaks = one newline then any sequence of comments/newlines (spec fn skip_cn); leading zeros and -0 through dec/signed_val; the statement loop of next_clause skips comments and blank lines. The meta-theorem "two renderings of one token sequence parse equal" is a relational statement that is NOT proved (see DESIGN 6/C07); solver log not under contract yet.' + SCOPE,
+    'C07': dict(cat='proof', ref='6/C07', text='The layout freedom is proved as token-level facts: end-of-word = space/tab/CR/LF/end; tokens eat trailing blanks; newline = LF or CRLF plus blanks; comment = through the next LF plus blanks; non_terminating_linebreaks = one newline then any sequence of comments/newlines (spec fn skip_cn); leading zeros and -0 through dec/signed_val; the statement loop of next_clause skips comments and blank lines. The meta-theorem "two renderings of one token sequence parse equal" is a relational statement that is NOT proved (see DESIGN 6/C07); the solver log parser is under contract for limits, clean end and error location, not for layout equivalence.' + SCOPE,
                 tech=TECH, note=NOTE),
     'C08': dict(cat='proof', ref='6/C08', text='LineReader::inv(): line_start <= position, no newline between them, line == 1 + number of LFs before line_start (exact for text content; bounds only once binary AIGER content was consumed). Every error of the verified tokens/parsers is `located` (line of the bookkeeping, 1 <= column <= position - line_start + 1) or `reported` at the exact offset (cursor for unexpected tokens, mark for range errors; tokens that fall through leave cursor, line bookkeeping and mark untouched). line_at_offset has the weakest precondition that keeps the accounting exact, incl. the manual multi-line accounting of AIGER comments.' + SCOPE,
                 tech=TECH, note=NOTE),
